@@ -479,6 +479,9 @@ func genC14(out *Out, r *Rng, tier string, n int, shard int) {
 	for i := 0; i < n; i++ {
 		emitStructView(out, r)
 		emitDIDDocRoundTrip(out, r)
+		for k := 0; k < 6; k++ {
+			emitClaimHex(out, r)
+		}
 	}
 }
 
